@@ -4,8 +4,8 @@
 import TuModel.Lemmas.PipeL
 namespace Tu
 
-theorem inv_take {W n : Nat} {s s' : PState} {w : Nat} (h : Inv W n s) (hs : stepTake s w = some s') :
-    Inv W n s' := by
+theorem inv_take {W : Nat} {src : Nat → Bool} {s s' : PState} {w : Nat} (h : Inv W src s) (hs : stepTake s w = some s') :
+    Inv W src s' := by
   unfold stepTake at hs
   split at hs
   · rename_i hg
@@ -15,12 +15,10 @@ theorem inv_take {W n : Nat} {s s' : PState} {w : Nat} (h : Inv W n s) (hs : ste
     split at hs
     · rename_i hlt
       injection hs with hs; subst hs
-      have hn := h.hn
-      have hnl := h.next_le
+      have hsp : src s.pulls = true := by rw [← h.hsrc]; exact hlt
       have htl := h.turn_le
       exact {
-        hW := h.hW, hn := h.hn
-        next_le := by dsimp only; omega
+        hW := h.hW, hsrc := h.hsrc
         turn_le := by dsimp only; omega
         held_ex := by
           dsimp only
@@ -108,21 +106,30 @@ theorem inv_take {W n : Nat} {s s' : PState} {w : Nat} (h : Inv W n s) (hs : ste
           intro hc
           have := (h.closed_ hc).1 w hw
           rw [hpc] at this; cases this
-        exited_ := by
+        next_eq := by dsimp only; rw [itemsBefore_succ_true hsp, ← h.next_eq]
+        gaps_le := by
           dsimp only
-          intro hd u hu hc
-          by_cases huw : u = w
-          · subst huw; simp at hc
-          · rw [setPc_ne _ _ huw] at hc
-            have := h.exited_ hd u hu hc; omega }
+          rw [gapsBefore_succ_true hsp, exSum_setPc s.pc (.holding s.next) hw (by rw [hpc]; rfl)]; exact h.gaps_le
+        gaps_eq := by
+          dsimp only
+          rw [gapsBefore_succ_true hsp, exSum_setPc s.pc (.holding s.next) hw (by rw [hpc]; rfl)]; exact h.gaps_eq
+        pulls_min := by
+          dsimp only
+          intro k hk
+          by_cases hkp : k = s.pulls
+          · subst hkp
+            have := h.gaps_le
+            have := exSum_lt s.pc hw (by rw [hpc]; simp)
+            omega
+          · exact h.pulls_min k (by omega) }
     · rename_i hge
       injection hs with hs; subst hs
-      have hn := h.hn
-      have hnl := h.next_le
-      have hnn : s.next = n := by omega
+      have hsp : src s.pulls = false := by
+        rw [← h.hsrc]; cases hb : s.src s.pulls
+        · rfl
+        · exact absurd hb hge
       exact {
-        hW := h.hW, hn := h.hn
-        next_le := h.next_le
+        hW := h.hW, hsrc := h.hsrc
         turn_le := h.turn_le
         held_ex := by
           dsimp only
@@ -200,14 +207,35 @@ theorem inv_take {W n : Nat} {s s' : PState} {w : Nat} (h : Inv W n s) (hs : ste
           intro hc
           have := (h.closed_ hc).1 w hw
           rw [hpc] at this; cases this
-        exited_ := by
+        next_eq := by dsimp only; rw [itemsBefore_succ_false hsp]; exact h.next_eq
+        gaps_le := by
           dsimp only
-          intro hd u hu hc
-          exact hnn }
+          rw [gapsBefore_succ_false hsp]
+          have h1 := sum_map_setPc PC.ex s.pc w W .exited hw
+          rw [hpc, ex_idle, ex_exited] at h1
+          have := h.gaps_le
+          omega
+        gaps_eq := by
+          dsimp only
+          intro hd
+          rw [gapsBefore_succ_false hsp]
+          have h1 := sum_map_setPc PC.ex s.pc w W .exited hw
+          rw [hpc, ex_idle, ex_exited] at h1
+          have := h.gaps_eq hd
+          omega
+        pulls_min := by
+          dsimp only
+          intro k hk
+          by_cases hkp : k = s.pulls
+          · subst hkp
+            have := h.gaps_le
+            have := exSum_lt s.pc hw (by rw [hpc]; simp)
+            omega
+          · exact h.pulls_min k (by omega) }
   · cases hs
 
-theorem inv_compute {W n : Nat} {s s' : PState} {w : Nat} (h : Inv W n s) (hs : stepCompute s w = some s') :
-    Inv W n s' := by
+theorem inv_compute {W : Nat} {src : Nat → Bool} {s s' : PState} {w : Nat} (h : Inv W src s) (hs : stepCompute s w = some s') :
+    Inv W src s' := by
   unfold stepCompute at hs
   split at hs
   · rename_i hw
@@ -218,8 +246,7 @@ theorem inv_compute {W n : Nat} {s s' : PState} {w : Nat} (h : Inv W n s) (hs : 
       have hitem : (s.pc w).item = some i := by rw [hpc]; rfl
       have hrng := h.held_rng w i hw hitem
       exact {
-        hW := h.hW, hn := h.hn
-        next_le := h.next_le
+        hW := h.hW, hsrc := h.hsrc
         turn_le := h.turn_le
         held_ex := by
           dsimp only
@@ -309,18 +336,15 @@ theorem inv_compute {W n : Nat} {s s' : PState} {w : Nat} (h : Inv W n s) (hs : 
           intro hc
           have := (h.closed_ hc).1 w hw
           rw [hpc] at this; cases this
-        exited_ := by
-          dsimp only
-          intro hd u hu hc
-          by_cases huw : u = w
-          · subst huw; simp at hc
-          · rw [setPc_ne _ _ huw] at hc
-            exact h.exited_ hd u hu hc }
+        next_eq := h.next_eq
+        gaps_le := by dsimp only; rw [exSum_setPc s.pc (.computed i) hw (by rw [hpc]; rfl)]; exact h.gaps_le
+        gaps_eq := by dsimp only; rw [exSum_setPc s.pc (.computed i) hw (by rw [hpc]; rfl)]; exact h.gaps_eq
+        pulls_min := h.pulls_min }
     · cases hs
   · cases hs
 
-theorem inv_spin {W n : Nat} {s s' : PState} {w : Nat} (h : Inv W n s) (hs : stepSpin s w = some s') :
-    Inv W n s' := by
+theorem inv_spin {W : Nat} {src : Nat → Bool} {s s' : PState} {w : Nat} (h : Inv W src s) (hs : stepSpin s w = some s') :
+    Inv W src s' := by
   unfold stepSpin at hs
   split at hs
   · rename_i hw
@@ -338,8 +362,7 @@ theorem inv_spin {W n : Nat} {s s' : PState} {w : Nat} (h : Inv W n s) (hs : ste
           · subst hv; rw [hitem]; simp [PC.item]
           · rw [setPc_ne _ _ hv]
         exact {
-          hW := h.hW, hn := h.hn
-          next_le := h.next_le
+          hW := h.hW, hsrc := h.hsrc
           turn_le := h.turn_le
           held_ex := by
             dsimp only
@@ -411,19 +434,16 @@ theorem inv_spin {W n : Nat} {s s' : PState} {w : Nat} (h : Inv W n s) (hs : ste
             intro hc
             have := (h.closed_ hc).1 w hw
             rw [hpc] at this; cases this
-          exited_ := by
-            dsimp only
-            intro hd u hu hc
-            by_cases huw : u = w
-            · subst huw; simp at hc
-            · rw [setPc_ne _ _ huw] at hc
-              exact h.exited_ hd u hu hc }
+          next_eq := h.next_eq
+          gaps_le := by dsimp only; rw [exSum_setPc s.pc (.cleared i) hw (by rw [hpc]; rfl)]; exact h.gaps_le
+          gaps_eq := by dsimp only; rw [exSum_setPc s.pc (.cleared i) hw (by rw [hpc]; rfl)]; exact h.gaps_eq
+          pulls_min := h.pulls_min }
       · injection hs with hs; subst hs; exact h
     · cases hs
   · cases hs
 
-theorem inv_send {W n : Nat} {s s' : PState} {w : Nat} (h : Inv W n s) (hs : stepSend s w = some s') :
-    Inv W n s' := by
+theorem inv_send {W : Nat} {src : Nat → Bool} {s s' : PState} {w : Nat} (h : Inv W src s) (hs : stepSend s w = some s') :
+    Inv W src s' := by
   unfold stepSend at hs
   split at hs
   · rename_i hw
@@ -442,8 +462,7 @@ theorem inv_send {W n : Nat} {s s' : PState} {w : Nat} (h : Inv W n s) (hs : ste
       · rename_i hdr
         injection hs with hs; subst hs
         exact {
-          hW := h.hW, hn := h.hn
-          next_le := h.next_le
+          hW := h.hW, hsrc := h.hsrc
           turn_le := h.turn_le
           held_ex := by
             dsimp only
@@ -499,13 +518,10 @@ theorem inv_send {W n : Nat} {s s' : PState} {w : Nat} (h : Inv W n s) (hs : ste
             intro hc
             have := (h.closed_ hc).1 w hw
             rw [hpc] at this; cases this
-          exited_ := by
-            dsimp only
-            intro hd u hu hc
-            by_cases huw : u = w
-            · subst huw; simp at hc
-            · rw [setPc_ne _ _ huw] at hc
-              exact h.exited_ hd u hu hc }
+          next_eq := h.next_eq
+          gaps_le := by dsimp only; rw [exSum_setPc s.pc (.sent i false) hw (by rw [hpc]; rfl)]; exact h.gaps_le
+          gaps_eq := by dsimp only; rw [exSum_setPc s.pc (.sent i false) hw (by rw [hpc]; rfl)]; exact h.gaps_eq
+          pulls_min := h.pulls_min }
       · rename_i hdr
         have hdr : s.dropped = false := by simpa using hdr
         split at hs
@@ -518,8 +534,7 @@ theorem inv_send {W n : Nat} {s s' : PState} {w : Nat} (h : Inv W n s) (hs : ste
               have : u = w := h.held_uniq u w i hu hw (by rw [hc, hit]; rfl) hitem
               subst this; rw [hpc] at hc; cases hc
           exact {
-            hW := h.hW, hn := h.hn
-            next_le := h.next_le
+            hW := h.hW, hsrc := h.hsrc
             turn_le := h.turn_le
             held_ex := by
               dsimp only
@@ -600,19 +615,16 @@ theorem inv_send {W n : Nat} {s s' : PState} {w : Nat} (h : Inv W n s) (hs : ste
               intro hc
               have := (h.closed_ hc).1 w hw
               rw [hpc] at this; cases this
-            exited_ := by
-              dsimp only
-              intro hd u hu hc
-              by_cases huw : u = w
-              · subst huw; simp at hc
-              · rw [setPc_ne _ _ huw] at hc
-                exact h.exited_ hd u hu hc }
+            next_eq := h.next_eq
+            gaps_le := by dsimp only; rw [exSum_setPc s.pc (.sent i true) hw (by rw [hpc]; rfl)]; exact h.gaps_le
+            gaps_eq := by dsimp only; rw [exSum_setPc s.pc (.sent i true) hw (by rw [hpc]; rfl)]; exact h.gaps_eq
+            pulls_min := h.pulls_min }
         · cases hs
     · cases hs
   · cases hs
 
-theorem inv_advance {W n : Nat} {s s' : PState} {w : Nat} (h : Inv W n s) (hs : stepAdvance s w = some s') :
-    Inv W n s' := by
+theorem inv_advance {W : Nat} {src : Nat → Bool} {s s' : PState} {w : Nat} (h : Inv W src s) (hs : stepAdvance s w = some s') :
+    Inv W src s' := by
   unfold stepAdvance at hs
   split at hs
   · rename_i hw
@@ -633,6 +645,8 @@ theorem inv_advance {W n : Nat} {s s' : PState} {w : Nat} (h : Inv W n s) (hs : 
         cases ok <;> simp
       have hnhold : ∀ j, (if ok = true then PC.idle else PC.exited) ≠ .holding j := by
         cases ok <;> simp
+      have hnewe : (if ok = true then PC.idle else PC.exited).ex = (if ok = true then 0 else 1) := by
+        cases ok <;> rfl
       -- any other worker owning an item owns a later one
       have hother : ∀ u j, u < W → u ≠ w → (s.pc u).item = some j → i + 1 ≤ j := by
         intro u j hu huw hui
@@ -641,8 +655,7 @@ theorem inv_advance {W n : Nat} {s s' : PState} {w : Nat} (h : Inv W n s) (hs : 
           intro e; subst e; exact huw (h.held_uniq u w j hu hw hui hitem)
         omega
       exact {
-        hW := h.hW, hn := h.hn
-        next_le := h.next_le
+        hW := h.hW, hsrc := h.hsrc
         turn_le := by dsimp only; omega
         held_ex := by
           dsimp only
@@ -731,21 +744,33 @@ theorem inv_advance {W n : Nat} {s s' : PState} {w : Nat} (h : Inv W n s) (hs : 
           intro hc
           have := (h.closed_ hc).1 w hw
           rw [hpc] at this; cases this
-        exited_ := by
+        next_eq := h.next_eq
+        gaps_le := by
           dsimp only
-          intro hd u hu hc
-          by_cases huw : u = w
-          · subst huw; rw [setPc_same] at hc
+          have h1 := sum_map_setPc PC.ex s.pc w W (if ok = true then PC.idle else PC.exited) hw
+          rw [hnewe, hpc, ex_sent] at h1
+          have := h.gaps_le
+          have : (if ok = true then 0 else 1) ≤ 1 := by split <;> omega
+          omega
+        gaps_eq := by
+          dsimp only
+          intro hd
+          have h1 := sum_map_setPc PC.ex s.pc w W (if ok = true then PC.idle else PC.exited) hw
+          rw [hnewe, hpc, ex_sent] at h1
+          have h2 := h.gaps_eq hd
+          have h3 : ok = true := by
             cases ok
-            · have := h.sent_false u i hu hpc; rw [hd] at this; cases this
-            · simp at hc
-          · rw [setPc_ne _ _ huw] at hc
-            exact h.exited_ hd u hu hc }
+            · have := h.sent_false w i hw hpc; rw [hd] at this; cases this
+            · rfl
+          subst h3
+          simp only [if_true] at h1 ⊢
+          omega
+        pulls_min := h.pulls_min }
     · cases hs
   · cases hs
 
-theorem inv_recv {W n : Nat} {s s' : PState} (h : Inv W n s) (hs : stepRecv s = some s') :
-    Inv W n s' := by
+theorem inv_recv {W : Nat} {src : Nat → Bool} {s s' : PState} (h : Inv W src s) (hs : stepRecv s = some s') :
+    Inv W src s' := by
   unfold stepRecv at hs
   split at hs
   · cases hs
@@ -763,8 +788,7 @@ theorem inv_recv {W n : Nat} {s s' : PState} (h : Inv W n s) (hs : stepRecv s = 
       rw [hch] at hfifo hcl hlt hls hcd
       have happ : s.recvd ++ [x] ++ rest = s.recvd ++ x :: rest := by simp
       exact {
-        hW := h.hW, hn := h.hn
-        next_le := h.next_le
+        hW := h.hW, hsrc := h.hsrc
         turn_le := h.turn_le
         held_ex := h.held_ex
         held_rng := h.held_rng
@@ -784,11 +808,14 @@ theorem inv_recv {W n : Nat} {s s' : PState} (h : Inv W n s) (hs : stepRecv s = 
           intro hc
           have := (hcd hc).2.1
           cases this
-        exited_ := h.exited_ }
+        next_eq := h.next_eq
+        gaps_le := h.gaps_le
+        gaps_eq := h.gaps_eq
+        pulls_min := h.pulls_min }
     · cases hs
 
-theorem inv_close {W n : Nat} {s s' : PState} (h : Inv W n s) (hs : stepClose s = some s') :
-    Inv W n s' := by
+theorem inv_close {W : Nat} {src : Nat → Bool} {s s' : PState} (h : Inv W src s) (hs : stepClose s = some s') :
+    Inv W src s' := by
   unfold stepClose at hs
   split at hs
   · rename_i hg
@@ -798,8 +825,7 @@ theorem inv_close {W n : Nat} {s s' : PState} (h : Inv W n s) (hs : stepClose s 
     have hall' := (allExited_iff s).mp hall
     rw [h.hW] at hall'
     exact {
-      hW := h.hW, hn := h.hn
-      next_le := h.next_le
+      hW := h.hW, hsrc := h.hsrc
       turn_le := h.turn_le
       held_ex := h.held_ex
       held_rng := h.held_rng
@@ -815,11 +841,14 @@ theorem inv_close {W n : Nat} {s s' : PState} (h : Inv W n s) (hs : stepClose s 
       calls_hold := h.calls_hold
       calls_done := h.calls_done
       closed_ := fun _ => ⟨hall', hch, hdr⟩
-      exited_ := h.exited_ }
+      next_eq := h.next_eq
+      gaps_le := h.gaps_le
+      gaps_eq := h.gaps_eq
+      pulls_min := h.pulls_min }
   · cases hs
 
-theorem inv_drop {W n : Nat} {s s' : PState} (h : Inv W n s) (hs : stepDrop s = some s') :
-    Inv W n s' := by
+theorem inv_drop {W : Nat} {src : Nat → Bool} {s s' : PState} (h : Inv W src s) (hs : stepDrop s = some s') :
+    Inv W src s' := by
   unfold stepDrop at hs
   split at hs
   · cases hs
@@ -828,8 +857,7 @@ theorem inv_drop {W n : Nat} {s s' : PState} (h : Inv W n s) (hs : stepDrop s = 
     have hcl : s.closed = false := by
       cases hd : s.closed <;> simp [hd] at hdc ⊢
     exact {
-      hW := h.hW, hn := h.hn
-      next_le := h.next_le
+      hW := h.hW, hsrc := h.hsrc
       turn_le := h.turn_le
       held_ex := h.held_ex
       held_rng := h.held_rng
@@ -845,10 +873,13 @@ theorem inv_drop {W n : Nat} {s s' : PState} (h : Inv W n s) (hs : stepDrop s = 
       calls_hold := h.calls_hold
       calls_done := h.calls_done
       closed_ := by dsimp only; intro hc; rw [hcl] at hc; cases hc
-      exited_ := by dsimp only; intro hd; cases hd }
+      next_eq := h.next_eq
+      gaps_le := h.gaps_le
+      gaps_eq := by dsimp only; intro hd; cases hd
+      pulls_min := h.pulls_min }
 
-theorem inv_step {W n : Nat} {s s' : PState} (a : PAction) (h : Inv W n s) (hs : pstep s a = some s') :
-    Inv W n s' := by
+theorem inv_step {W : Nat} {src : Nat → Bool} {s s' : PState} (a : PAction) (h : Inv W src s) (hs : pstep s a = some s') :
+    Inv W src s' := by
   cases a with
   | take w => exact inv_take h hs
   | compute w => exact inv_compute h hs
@@ -860,9 +891,9 @@ theorem inv_step {W n : Nat} {s s' : PState} (a : PAction) (h : Inv W n s) (hs :
   | drop => exact inv_drop h hs
 
 /-- the invariant holds in every reachable state -/
-theorem inv_reach {W n : Nat} {s : PState} (h : PReach W n s) : Inv W n s := by
+theorem inv_reach {W : Nat} {src : Nat → Bool} {s : PState} (h : PReach W src s) : Inv W src s := by
   induction h with
-  | init => exact inv_init W n
+  | init => exact inv_init W src
   | step a _ hs ih => exact inv_step a ih hs
 
 end Tu
